@@ -85,7 +85,7 @@ func init() {
 							restricted.Series = append(restricted.Series, rs)
 						}
 					}
-					if d := oracle.Equal(restricted, sub, tol); d != "" {
+					if d := equalOrTie(c, expr, st, restricted, sub, tol); d != "" {
 						return core.Verdict{Status: "violation", Features: feats, Evals: evals,
 							Detail: fmt.Sprintf("query: %s\nwindow: start=%d end=%d step=%d (steps=%d) procs=%d\nresult over [%d,%d] restricted to [%d,%d] differs from the result over [%d,%d]: %s\nfull: %s\nsub:  %s\n",
 								c.Query, c.Start, c.End, c.Step, n, c.Procs, c.Start, c.End, s0, s1, s0, s1, d, rng, sub)}
